@@ -22,7 +22,18 @@ func (g *EvGen) nextAgg(ts int64) *Event {
 	parts := []string{`"vid":` + w.scalar("vid", 's', vid), fmt.Sprintf(`"timestamp":%d`, ts)}
 	add := func(k, v string) { parts = append(parts, jsonStr(k)+":"+v) }
 	add("n", w.scalar("n", 'n', strconv.Itoa(r.IntN(50)-10)))                                       // dense ints, duplicates
-	add("f", w.scalar("f", 'n', strconv.FormatFloat(float64(r.IntN(2000))/8-50, 'f', -1, 64)))       // dense floats (exact in binary)
+	// dense floats (exact in binary); now and then a run of 3-40 events holds whole numbers only, so that whole
+	// blocks and segments see the fractional measure as an integer column (partial aggregates of both kinds meet
+	// in the merge)
+	if g.wholeLeft == 0 && r.IntN(12) == 0 {
+		g.wholeLeft = 3 + r.IntN(38)
+	}
+	if g.wholeLeft > 0 {
+		g.wholeLeft--
+		add("f", w.scalar("f", 'n', strconv.Itoa(r.IntN(250)-50)))
+	} else {
+		add("f", w.scalar("f", 'n', strconv.FormatFloat(float64(r.IntN(2000))/8-50, 'f', -1, 64)))
+	}
 	if r.IntN(3) > 0 {
 		add("sp", w.scalar("sp", 'n', strconv.Itoa(r.IntN(1000)))) // sparse measure
 	}
